@@ -52,3 +52,31 @@ Definition trim (l : str) : str := strip is_sp_tab l.
 Fixpoint drop_blank (ls : list str) : list str :=
   match ls with [] => [] | l :: r => match l with [] => drop_blank r | _ => ls end end.
 Definition trim_blank_ends (ls : list str) : list str := rev (drop_blank (rev (drop_blank ls))).
+
+(* ---- C12: depth of every content line, and the indentation it had ---- *)
+
+(* depth of each non-blank content line of a pre-parsed text, reading markers as brackets *)
+Fixpoint line_depths (d : nat) (ls : list str) : list nat :=
+  match ls with
+  | [] => []
+  | l :: r =>
+      if is_ind_line l then line_depths (S d) r
+      else if is_ded_line l then line_depths (pred d) r
+      else match l with [] => line_depths d r | _ :: _ => d :: line_depths d r end
+  end.
+
+(* indentation width of each non-blank line of the cleaned input *)
+Definition levels (ls : list str) : list Z :=
+  flat_map (fun l => let '(n, body) := span_sp l in
+                     match body with [] => [] | _ :: _ => [Z.of_nat n] end) ls.
+
+(* what C12 says about two consecutive non-blank lines: deeper -> exactly one more level,
+   same -> same block, less -> never deeper *)
+Fixpoint follows (w0 : Z) (d0 : nat) (ws : list Z) (ds : list nat) : Prop :=
+  match ws, ds with
+  | w :: ws', d :: ds' =>
+      (((w0 < w)%Z -> d = S d0) /\ (w = w0 -> d = d0) /\ ((w < w0)%Z -> (d <= d0)%nat))
+      /\ follows w d ws' ds'
+  | [], [] => True
+  | _, _ => False
+  end.
